@@ -37,6 +37,26 @@ theorem C03_md_key_roundtrip (k : B) (vs : List B) (hne : vs ≠ []) (hl : lower
   have := asMetadata_values k vs hne hl hvs
   simpa [toHeaders, hr] using this
 
+/-- **Whole metadata maps survive the header encoding**: for any number of keys (distinct, lower-case,
+    not reserved), each with any number of values, `-bin` values arbitrary byte strings, plain values
+    any bytes: decoding the header lines `toHeaders` emits gives back every key with all its values in
+    order (`md.reverse`: the same map — the order of *keys* is not observable in a Go map). -/
+theorem C03_md_roundtrip (md : MD) (h : WF md) : asMetadata (toHeaders md []) = some md.reverse :=
+  md_roundtrip md h
+
+/-- non-vacuity: two keys, one of them `-bin` with two values -/
+example : WF [([97], [[1, 2]]), ([116, 45, 98, 105, 110], [[0, 10, 255], [7]])] := by
+  refine ⟨by decide, ?_⟩
+  intro e he
+  simp at he
+  rcases he with rfl | rfl
+  · refine ⟨by decide, by decide +kernel, by simp, ?_⟩
+    intro hb; exact absurd hb (by decide)
+  · refine ⟨by decide, by decide +kernel, by simp, ?_⟩
+    intro _ v hv x hx
+    simp at hv
+    rcases hv with rfl | rfl <;> simp at hx <;> omega
+
 /-- reserved keys are dropped by the transport (documented: they belong to HTTP itself) -/
 theorem C03_reserved_dropped (k : B) (vs : List B) (hr : isReserved k = true) : toHeaders [(k, vs)] [] = [] := by
   simp [toHeaders, hr]
